@@ -94,7 +94,24 @@ def is_helper(db, caller, callee):
     a, b = class_of(db, caller), class_of(db, callee)
     if not a or not b:
         return False
-    return a == b or a.startswith(b + '::') or b.startswith(a + '::')
+    return a == b or a.startswith(b + '::') or b.startswith(a + '::') or derives(db, a, b) or derives(db, b, a)
+
+
+def derives(db, cls, base, depth=4):
+    """does class `cls` (normalised name) derive from `base`?"""
+    cache = db.__dict__.setdefault('_derives', {})
+    k = (cls, base)
+    if k in cache:
+        return cache[k]
+    r = False
+    if depth > 0:
+        for c in db.class_insts(cls)[:1]:
+            for b in c.get('bases', []):
+                bn = norm(b.replace('class ', '').replace('struct ', ''))
+                if bn == base or base.endswith('::' + bn) or derives(db, bn if '::' in bn else 'cocls::' + bn, base, depth - 1):
+                    r = True
+    cache[k] = r
+    return r
 
 
 def callers_of(db, fname):
@@ -358,3 +375,113 @@ def linform(expr, atom_map=None):
         return {k: c for k, c in v.items() if c != 0 or k == ''}
     except (ValueError, IndexError):
         return None
+
+
+def flows_only_into(f, ev, callee, how=('arg',)):
+    """does the value computed by event `ev` flow only into a call of `callee` (directly as an argument, or through one local that is
+    used for nothing else)?"""
+    use = ev.get('use') or ''
+    if use == 'arg:' + callee:
+        return True
+    if use == 'return' and 'return' in how:
+        return True
+    if use.startswith('init:'):
+        v = 'local:' + use[5:]
+        uses = [e for e in f.events() if e.k in ('use', 'read') and e.get('path') == v]
+        sinks = [e for e in f.events() if e.k in ('call', 'construct') and norm(e.get('callee')) == callee and any(a.get('path') in (v, 'move(%s)' % v) for a in e.get('args', []))]
+        moved = [e for e in f.events() if e.k == 'call' and norm(e.get('callee')) in ('std::move', 'std::forward') and any(a.get('path') == v for a in e.get('args', []))]
+        writes = [e for e in f.events() if e.k == 'write' and e.get('path') == v]
+        return len(sinks) >= 1 and len(uses) <= len(sinks) and not writes and len(moved) <= len(sinks)
+    return False
+
+
+def delta_of_write(ev):
+    """numeric change a write applies to its target: += c, -= c, ++, --, x = x + c, x = x - c ; None when not of that shape"""
+    op = ev.get('op') or '='
+    c = ev.get('const')
+    if op == '+=' and c is not None:
+        return c
+    if op == '-=' and c is not None:
+        return -c
+    if op == '++':
+        return 1
+    if op == '--':
+        return -1
+    if op == '=':
+        p = re.escape(ev.get('path') or '')
+        m = re.fullmatch(r'\(%s ([+-]) (\d+)\)' % p, ev.get('rhs') or '')
+        if m:
+            return int(m.group(2)) * (1 if m.group(1) == '+' else -1)
+        m = re.fullmatch(r'\((\d+) \+ %s\)' % p, ev.get('rhs') or '')
+        if m:
+            return int(m.group(1))
+    return None
+
+
+def resume_functions(db, ctor_or_fn_name):
+    """functions installed as an awaiter's resume function inside `ctor_or_fn_name`: arguments of set_resume_fn / of the awaiter base
+    constructor that are a lambda or a named (static member) function"""
+    out = []
+    for f in db.fns(ctor_or_fn_name):
+        for e in f.events():
+            if e.k in ('call', 'construct') and (norm(e.get('callee')) in ('cocls::awaiter::set_resume_fn', 'cocls::awaiter::awaiter') or norm(e.get('callee') or '').endswith('_promise_base::future_conv_promise_base') or 'awaiter::awaiter' in norm(e.get('callee') or '')):
+                for a in e.get('args', []):
+                    p = a.get('path') or ''
+                    m = re.search(r'lambda@(\S+?)\)*$', p)
+                    if m:
+                        out.extend(db.closure_instances(f, m.group(1)))
+                    m = re.search(r'fn:([\w:~<>, ]+)', p)
+                    if m:
+                        out.extend(db.fns(norm(m.group(1))))
+        # conversion of a capture-less lambda to a function pointer shows as a call of the closure's conversion operator
+        for e in f.events():
+            if e.k == 'call' and 'operator cocls::suspend_point' in (e.get('callee') or '') and (e.get('recv') or '').startswith('lambda@'):
+                out.extend(db.closure_instances(f, e['recv'][7:]))
+    seen = set(); res = []
+    for g in out:
+        k = (g['key'], g['inst'])
+        if k not in seen:
+            seen.add(k); res.append(g)
+    return res
+
+
+def htracer(db, extra=None, exc=None, maxvisit=2, limit=20000, depth=3):
+    """a Tracer that expands calls to helpers of the code under analysis (same class / local lambdas), plus what `extra` accepts"""
+    return Tracer(db, depth=depth, inline_filter=lambda caller, ev, callee: bool(extra and extra(caller, ev, callee)) or is_helper(db, caller, callee),
+                  exc_edges=exc, maxvisit=maxvisit, limit=limit)
+
+
+LOCK_TYPES = re.compile(r'\b(lock_guard|unique_lock|scoped_lock)\b')
+
+
+def trace_lockset(tr):
+    """set of lock variables held before each item of one trace (RAII construction / destruction, explicit lock()/unlock() on a unique_lock,
+    a unique_lock& parameter of the root counts as held)"""
+    held = set(); out = []
+    pending = False
+    for it in tr:
+        out.append(frozenset(held))
+        if it.k in ('enter', 'leave', 'branch', 'switch', 'abort', 'exception'):
+            continue
+        if it.k == 'construct' and LOCK_TYPES.search(it.get('callee') or '') and not it.get('copy_or_move'):
+            a = it.get('args') or []
+            pending = not (len(a) > 1 and re.search(r'defer_lock|try_to_lock', (a[1].get('type') or '') + (a[1].get('path') or '')))
+        elif it.k == 'decl' and LOCK_TYPES.search(it.get('type') or '') and not it.get('ref'):
+            if pending:
+                held.add(it.get('var'))
+            pending = False
+        elif it.k == 'dtor' and LOCK_TYPES.search(it.get('type') or ''):
+            v = it.get('var')
+            for h in list(held):
+                if h == 'local:' + v or h.startswith('local:' + v + '#'):
+                    if it.get('depth', 0) == (int(h.split('#')[1]) if '#' in h else 0):
+                        held.discard(h)
+        elif it.k == 'call' and norm(it.get('callee')) == 'std::unique_lock::unlock':
+            held.discard(it.get('recv'))
+        elif it.k == 'call' and norm(it.get('callee')) == 'std::unique_lock::lock':
+            held.add(it.get('recv'))
+    return out
+
+
+def entry_locks(f):
+    return {'param:' + p['name'] for p in f['params'] if 'unique_lock' in p['type'] and '&' in p['type']}
